@@ -59,19 +59,19 @@ Qed.
 
 Lemma decl_blob_ext v K s s' : wf s -> ext s s' -> decl_blob v K s -> decl_blob v K s'.
 Proof.
-  intros _ (_ & _ & _ & E4) (n & sp & f & a & H & HK). destruct (E4 _ _ H eq_refl) as (h' & H' & S).
+  intros _ (_ & _ & _ & E4 & _) (n & sp & f & a & H & HK). destruct (E4 _ _ H eq_refl) as (h' & H' & S).
   destruct (shape_blob_keys _ _ _ _ _ _ S HK) as (n' & sp' & f' & a' & -> & HK'). do 4 eexists. eauto.
 Qed.
 
 Lemma decl_enum_ext v K s s' : wf s -> ext s s' -> decl_enum v K s -> decl_enum v K s'.
 Proof.
-  intros _ (_ & _ & _ & E4) (n & sp & f & a & H & HK). destruct (E4 _ _ H eq_refl) as (h' & H' & S).
+  intros _ (_ & _ & _ & E4 & _) (n & sp & f & a & H & HK). destruct (E4 _ _ H eq_refl) as (h' & H' & S).
   destruct (shape_enum_keys _ _ _ _ _ _ S HK) as (n' & sp' & f' & a' & -> & HK'). do 4 eexists. eauto.
 Qed.
 
 Lemma decl_extern_ext v s s' : wf s -> ext s s' -> decl_extern v s -> decl_extern v s'.
 Proof.
-  intros _ (_ & _ & _ & E4) (n & sp & f & a & i & H). destruct (E4 _ _ H eq_refl) as (h' & H' & S).
+  intros _ (_ & _ & _ & E4 & _) (n & sp & f & a & i & H). destruct (E4 _ _ H eq_refl) as (h' & H' & S).
   destruct h'; cbn in S; try discriminate. do 5 eexists. eassumption.
 Qed.
 
@@ -136,7 +136,7 @@ Section Establish.
     destruct (push_spec _ _ _ _ W2 H3) as (W3 & E3 & Ht).
     apply bind_inv in H as (r & s4 & H4 & H). injection H as _ <-.
     destruct (unify_ok_heads _ _ _ _ _ _ _ W3 H4) as (W4 & E4 & Heq).
-    destruct E4 as (_ & _ & _ & E44).
+    destruct E4 as (_ & _ & _ & E44 & _).
     destruct external.
     - destruct (E44 _ _ Ht eq_refl) as (h' & Hh' & S). rewrite Heq in Hh'.
       destruct h'; cbn in S; try discriminate. do 5 eexists. eassumption.
@@ -167,7 +167,7 @@ Section Establish.
     destruct (push_spec _ _ _ _ W2 H3) as (W3 & E3 & Ht).
     apply bind_inv in H as (r & s4 & H4 & H). injection H as _ <-.
     destruct (unify_ok_heads _ _ _ _ _ _ _ W3 H4) as (W4 & E4 & Heq).
-    destruct E4 as (_ & _ & _ & E44).
+    destruct E4 as (_ & _ & _ & E44 & _).
     destruct (E44 _ _ Ht eq_refl) as (h' & Hh' & S). rewrite Heq in Hh'.
     assert (HK' : keys_are res (map fst variants)).
     { intros k. specialize (HK k). rewrite HK. rewrite !in_map_iff. split; intros (x & <- & Hx); exists x; (split; [reflexivity|]);
@@ -198,7 +198,7 @@ Lemma pres_copy g a : pres (copy (gfix g) a).
 Proof. unfold copy. apply pres_bind; [apply framed_pres, (gp_copy _ (gfix_pres g))|intros; apply pres_ret]. Qed.
 
 Lemma pres_unify g sp a b : pres (unify (gfix g) sp a b).
-Proof. unfold unify. apply pres_bind; [apply (gp_unify _ (gfix_pres g))|intros; apply pres_ret]. Qed.
+Proof. unfold unify. apply pres_bind; [apply (gp_unify0 _ (gfix_pres g))|intros; apply pres_ret]. Qed.
 
 (* the result of unify is the (old) representative of its first argument *)
 Lemma unify_result g sp a b s r s' : unify (gfix g) sp a b s = Ok (r, s') -> rep s a = Some r.
@@ -379,7 +379,7 @@ Section EnumRules.
     destruct (add_constraint_spec _ _ _ _ _ W3 H4) as (_ & _ & Hd4 & _ & C4 & _).
     apply bind_notok_l. apply (check_rejects g sp enum_ty _ s4 W4 C4).
     intros g' s' W' E'. cbn [check_one].
-    destruct E' as (_ & _ & _ & E44).
+    destruct E' as (_ & _ & _ & E44 & _).
     assert (Hx : head s4 enum_ty = Some (HEnum n' sp' f' a')) by (rewrite Hd4; assumption).
     destruct (E44 _ _ Hx eq_refl) as (h'' & Hh'' & Sh'').
     destruct (shape_enum_keys _ _ _ _ _ _ Sh'' HK') as (n2 & sp2 & f2 & a2 & -> & HK2).
@@ -445,7 +445,7 @@ Section TupleRules.
     assert (E1' : ext s1 s').
     { eapply ext_trans; [exact E2|]. eapply ext_trans; [exact E3|]. eapply ext_trans; [exact E4|].
       eapply ext_trans; [exact E5|]. eapply ext_trans; [exact E6|exact E']. }
-    destruct E1' as (_ & _ & _ & E44). destruct (E44 _ _ Ht eq_refl) as (h' & Hh' & Sh).
+    destruct E1' as (_ & _ & _ & E44 & _). destruct (E44 _ _ Ht eq_refl) as (h' & Hh' & Sh).
     destruct h'; cbn in Sh; try discriminate. apply PeanoNat.Nat.eqb_eq in Sh.
     rewrite (bind_ok _ _ _ _ _ (find_type_ok _ _ _ Hh')).
     destruct (Z.ltb_spec i 0) as [L|L]; [apply notok_fail|].
@@ -474,7 +474,7 @@ Section TupleRules.
       intros g' s' W' E'. cbn [check_one]. apply bind_notok_l.
       assert (Ex : ext s1 s') by (eapply ext_trans; [exact E2|]; eapply ext_trans; [exact E3|]; eapply ext_trans; [exact E4|exact E']).
       assert (Ey : ext s2 s') by (eapply ext_trans; [exact E3|]; eapply ext_trans; [exact E4|exact E']).
-      destruct Ex as (_ & _ & _ & Ex4). destruct Ey as (_ & _ & _ & Ey4).
+      destruct Ex as (_ & _ & _ & Ex4 & _). destruct Ey as (_ & _ & _ & Ey4 & _).
       destruct (Ex4 _ _ Hx eq_refl) as (hx & Hhx & Sx). destruct (Ey4 _ _ Hy eq_refl) as (hy & Hhy & Sy).
       destruct hx; cbn in Sx; try discriminate. destruct hy; cbn in Sy; try discriminate.
       apply PeanoNat.Nat.eqb_eq in Sx, Sy.
@@ -631,13 +631,13 @@ Section AccessRules.
 
   Lemma blob_head_ext s s' t : ext s s' -> blob_head s t -> blob_head s' t.
   Proof.
-    intros (_ & _ & _ & E4) (n & sp & f & a & H & HK). destruct (E4 _ _ H eq_refl) as (h' & H' & S).
+    intros (_ & _ & _ & E4 & _) (n & sp & f & a & H & HK). destruct (E4 _ _ H eq_refl) as (h' & H' & S).
     destruct (shape_blob_keys _ _ _ _ _ _ S HK) as (n' & sp' & f' & a' & -> & HK'). do 4 eexists. eauto.
   Qed.
 
   Lemma enum_head_ext s s' t : ext s s' -> enum_head s t -> enum_head s' t.
   Proof.
-    intros (_ & _ & _ & E4) (n & sp & f & a & H & HK). destruct (E4 _ _ H eq_refl) as (h' & H' & S).
+    intros (_ & _ & _ & E4 & _) (n & sp & f & a & H & HK). destruct (E4 _ _ H eq_refl) as (h' & H' & S).
     destruct (shape_enum_keys _ _ _ _ _ _ S HK) as (n' & sp' & f' & a' & -> & HK'). do 4 eexists. eauto.
   Qed.
 
